@@ -150,3 +150,25 @@ package ja4
 //@   loop 2 invariant 0 <= rangeindex#1 && rangeindex#1 < len(chs.Extensions) && sae != nil && isptr(utls.SignatureAlgorithmsExtension, chs.Extensions[rangeindex#1]) && sae == unboxptr(utls.SignatureAlgorithmsExtension, chs.Extensions[rangeindex#1])
 //@   loop 2 invariant -1 <= rangeindex && rangeindex < len(sae.SupportedSignatureAlgorithms) || (rangeindex == -1 && len(sae.SupportedSignatureAlgorithms) == 0)
 //@   loop 2 invariant algo == sigAlgs(chs.Extensions, rangeindex#1) ++ filterNG(sae.SupportedSignatureAlgorithms, rangeindex+1)
+
+//@ -- extension ids (as reported by the extension's own serialisation) of the extensions JA4_c hashes
+//@ pure func skippedExt(e utls.TLSExtension, keep bool) bool = isptr(utls.UtlsGREASEExtension, e) || (!keep && (isptr(utls.SNIExtension, e) || isptr(utls.ALPNExtension, e)))
+//@ pure func extIDs(es seq[utls.TLSExtension], keep bool, n int) seq[uint16] = ite(n <= 0, seq[uint16]{}, ite(skippedExt(es[n-1], keep), extIDs(es, keep, n-1), extIDs(es, keep, n-1) ++ seq[uint16]{extID(es[n-1])}))
+
+//@ func (*JA4Fingerprint).unmarshalExtensions :: j, chs, keepOriginalOrder -> err
+//@   props C02,C10
+//@   requires j != nil && chs != nil && extsWellFormed(chs)
+//@   assigns j.Extensions, utls.UtlsPaddingExtension.WillPad
+//@   ensures [C02:extensions-sorted] err == nil && !keepOriginalOrder ==> sorted16(j.Extensions)
+//@   ensures [C02:extensions-multiset] err == nil ==> len(j.Extensions) == len(extIDs(chs.Extensions, keepOriginalOrder, len(chs.Extensions))) && (forall v uint16 :: cnt16(j.Extensions, v, len(j.Extensions)) == cnt16(extIDs(chs.Extensions, keepOriginalOrder, len(chs.Extensions)), v, len(j.Extensions)))
+//@   loop 1 invariant -1 <= rangeindex && rangeindex < len(chs.Extensions) || (rangeindex == -1 && len(chs.Extensions) == 0)
+//@   loop 1 invariant extensions == extIDs(chs.Extensions, keepOriginalOrder, rangeindex+1)
+
+//@ func (*JA4Fingerprint).Unmarshal :: j, chs, protocol -> err
+//@   props C02,C10
+//@   requires j != nil && chs != nil && extsWellFormed(chs)
+//@   assigns j.all, utls.UtlsPaddingExtension.WillPad
+//@   ensures [C02:ja4a-fields] err == nil ==> j.Protocol == protocol && j.TLSVersion == ite(chs.TLSVersMax != 0, chs.TLSVersMax, maxVer(chs.Extensions, len(chs.Extensions))) && j.SNI == ite(hasSNI(chs.Extensions, len(chs.Extensions)), 'd', 'i') && j.NumberOfCipherSuites == countNG(chs.CipherSuites, len(chs.CipherSuites)) && j.NumberOfExtensions == countExt(chs.Extensions, len(chs.Extensions)) && j.FirstALPN == alpnCode(alpnOf(chs.Extensions, len(chs.Extensions)))
+//@   ensures [C02:ja4b-ciphers] err == nil ==> sorted16(j.CipherSuites) && len(j.CipherSuites) == len(filterNG(chs.CipherSuites, len(chs.CipherSuites))) && (forall v uint16 :: cnt16(j.CipherSuites, v, len(j.CipherSuites)) == cnt16(filterNG(chs.CipherSuites, len(chs.CipherSuites)), v, len(j.CipherSuites)))
+//@   ensures [C02:ja4c-extensions] err == nil ==> sorted16(j.Extensions) && len(j.Extensions) == len(extIDs(chs.Extensions, false, len(chs.Extensions))) && (forall v uint16 :: cnt16(j.Extensions, v, len(j.Extensions)) == cnt16(extIDs(chs.Extensions, false, len(chs.Extensions)), v, len(j.Extensions)))
+//@   ensures [C02:ja4c-sigalgs] err == nil ==> j.SignatureAlgorithms == sigAlgs(chs.Extensions, len(chs.Extensions))
